@@ -38,6 +38,8 @@ Fails(e) ==
     \cup (IF Commits(e.full) <= e.nitems /\ Outside(e.full, 1, FALSE) = 0 /\ WritesAfterLastCommit(e.full) = 0
           THEN {} ELSE {"C09_onetxn"})
     \cup (IF e.broken = 0 THEN {} ELSE {"C09_openable"})
+    \* Durability!RestartKeeps: the restarted server opened, listed and read everything - and changed nothing
+    \cup (IF Range(e.rec2) = Range(e.rec) THEN {} ELSE {"C09_restart_changes_store"})
     \* before the commit nothing is visible, after it everything is (SQLite's guarantee: a mismatch here
     \* means the experiment, not the engine, is off)
     \cup (IF (Commits(e.events) = 0 => Range(e.rec) = Range(e.pre)) THEN {} ELSE {"C09_visible_before_commit"})
